@@ -310,11 +310,30 @@ open StepModel.GenNodeArray in
 /-- For ANY sequence of `Append` / `Remove(index)` / `ClearEntries` on a freshly constructed `GenNodeArray`, every pointer
 store and every `memmove` stays inside the allocated block (no step returns the out-of-block result), `_count` never
 exceeds `_bufsize`, the first `_count` slots are non-null and all others null, and the first `_count` slots are exactly
-the list that `List` append / `eraseIdx` / `[]` compute — the list view `InstMgr.lean` works with. -/
+the list that `List` append / `eraseIdx` / `[]` (for both `ClearEntries` and `DeleteEntries`) compute — the list view `InstMgr.lean` works with. -/
 theorem C13_buf_any_history (ops : List BufOp) :
     ∃ a, runBuf GenNodeArray.init ops = some a ∧ Wf a ∧ view a = ops.foldl stepList [] := by
   have := run_spec GenNodeArray.init ops wf_init
   simpa [view_mk, GenNodeArray.init] using this
+
+open StepModel.GenNodeArray in
+/-- `GetMgrNode( i )` / `GetApplication_instance( i )` read the slot `(*master)[i]` without looking at `_count`: after any
+history of appends, removes, `ClearEntries` and `DeleteEntries` the slot is null for every `i` at or above the count (so
+"no instance there" is answered) and holds the `i`-th element of the list below it.  Needs `DeleteEntries` to null the
+slots it frees — regenerated from mgrnodearray.cc; on a tree where it does not, `deleteEntries_spec` fails to build. -/
+theorem C13_buf_lookup_by_index (ops : List BufOp) (i : Nat) :
+    ∃ a, runBuf GenNodeArray.init ops = some a ∧
+      (a.count ≤ i → slotAt a i = none) ∧
+      (i < a.count → slotAt a i = ((ops.foldl stepList [])[i]?).join) := by
+  obtain ⟨a, h1, h2, h3⟩ := C13_buf_any_history ops
+  exact ⟨a, h1, fun hi => slotAt_above a i h2 hi, fun hi => by rw [← h3]; exact slotAt_below a i h2 hi⟩
+
+open StepModel.GenNodeArray in
+/-- the defect that was repaired (fixes/C13-2): a `DeleteEntries` loop that frees the nodes without nulling the slots
+leaves, for every former element, its freed pointer readable at its old index although the count is 0 -/
+theorem C13_buf_unnulled_delete_witness (a : Arr) (i p : Nat) (hi : i < a.count) (hp : a.buf[i]? = some (some p)) :
+    (dropAll false a).count = 0 ∧ slotAt (dropAll false a) i = some p :=
+  dropAll_false_dangling a i p hi hp
 
 open StepModel.GenNodeArray in
 /-- growth: `Check` always leaves room for the slot `Append` is about to write, whatever the default size is -/
